@@ -291,7 +291,7 @@ func ssaAllFunctions(pkg *ssa.Package) map[*ssa.Function]bool {
 				ms := pkg.Prog.MethodSets.MethodSet(t)
 				for i := 0; i < ms.Len(); i++ {
 					f := pkg.Prog.MethodValue(ms.At(i))
-					if f != nil && f.Pkg == pkg {
+					if f != nil && (f.Pkg == pkg || (f.Pkg == nil && f.Synthetic != "")) {
 						add(f)
 					}
 				}
